@@ -3,8 +3,10 @@
 package main
 
 import (
+	"context"
 	"encoding/json"
 	"fmt"
+	"time"
 
 	"github.com/cloudwego/eino/compose"
 
@@ -41,10 +43,93 @@ func (engine) CoqCaseType() string { return "ccase" }
 
 func (engine) Generate(r *lib.Rng, tier string, i int) any {
 	c := &c01case{Case: *generate(r, tier)}
+	if r.Chance(1, 12) {
+		corruptBranch(r, &c.Case)
+	}
 	if r.Chance(1, 8) {
 		c.RtMax = r.Range(1, 9)
 	}
 	return c
+}
+
+// corruptBranch: the malformed stream. One row of one branch table of an any-predecessor graph or chain is
+// made to name a node that is not an end node of that branch (another node of the graph, or no node at all):
+// when that row is selected the condition returns an "unintended end node" and the run must fail with the
+// branch error (model: eBranch) instead of routing anywhere.
+func corruptBranch(r *lib.Rng, c *gg.Case) {
+	type site struct {
+		table  *[][]uint64
+		ends   []uint64
+		single bool
+		others []uint64
+	}
+	var sites []site
+	for gi := range c.Forest {
+		g := &c.Forest[gi]
+		if g.Front == "chain" {
+			var all []uint64
+			for _, st := range g.Stages {
+				for _, sn := range st.Nodes {
+					all = append(all, sn.Key)
+				}
+			}
+			for si := range g.Stages {
+				st := &g.Stages[si]
+				if st.Kind == "branch" && len(st.Table) > 0 {
+					var ends []uint64
+					for _, sn := range st.Nodes {
+						ends = append(ends, sn.Key)
+					}
+					sites = append(sites, site{&st.Table, ends, st.Single, all})
+				}
+			}
+			continue
+		}
+		if g.Mode != "pregel" {
+			continue
+		}
+		var all []uint64
+		for _, n := range g.Nodes {
+			if n.Key != gg.START {
+				all = append(all, n.Key)
+			}
+		}
+		all = append(all, gg.END)
+		for ni := range g.Nodes {
+			for bi := range g.Nodes[ni].Branches {
+				b := &g.Nodes[ni].Branches[bi]
+				if len(b.Table) > 0 {
+					sites = append(sites, site{&b.Table, b.Ends, b.Single, all})
+				}
+			}
+		}
+	}
+	if len(sites) == 0 {
+		return
+	}
+	s := sites[r.Intn(len(sites))]
+	foreign := uint64(99)
+	var cands []uint64
+	for _, k := range s.others {
+		in := false
+		for _, e := range s.ends {
+			if e == k {
+				in = true
+			}
+		}
+		if !in {
+			cands = append(cands, k)
+		}
+	}
+	if len(cands) > 0 && r.Chance(2, 3) {
+		foreign = cands[r.Intn(len(cands))]
+	}
+	row := r.Intn(len(*s.table))
+	if s.single {
+		(*s.table)[row] = []uint64{foreign}
+	} else {
+		(*s.table)[row] = append(append([]uint64{}, (*s.table)[row]...), foreign)
+	}
 }
 
 func generate(r *lib.Rng, tier string) *gg.Case {
@@ -82,11 +167,29 @@ func (engine) Run(c any) lib.Result {
 	if cc.RtMax > 0 {
 		ro.CallOpts = []compose.Option{compose.WithRuntimeMaxSteps(cc.RtMax)}
 	}
+	delayed := (len(cc.Forest)+int(cc.Input.Size()))%4 == 1
+	if delayed {
+		// unequal node durations (0-150us, fixed per node path): lock-step must not depend on who finishes first
+		ro.Build.Wrap = func(path []uint64, body gg.Body) gg.Body {
+			var h uint64 = 1469598103934665603
+			for _, k := range path {
+				h = (h ^ k) * 1099511628211
+			}
+			d := time.Duration(h%4) * 50 * time.Microsecond
+			return func(ctx context.Context, in gg.M) (gg.M, error) {
+				time.Sleep(d)
+				return body(ctx, in)
+			}
+		}
+	}
 	obs := gg.Run(&cc.Case, ro)
 	cs := cc.effective()
 	res := lib.Result{Obs: obs, Tags: gg.Tags(cs, obs)}
 	if cc.RtMax > 0 {
 		res.Tags = append(res.Tags, "limit:runtime-option")
+	}
+	if delayed {
+		res.Tags = append(res.Tags, "timing:unequal-nodes")
 	}
 	if obs.Class == "compile" {
 		// every generated / recorded case is well-formed by construction (distinct keys, declared end nodes, a
